@@ -8,6 +8,7 @@ statements:
   ('assign', op, lhs, rhs, line) ('decl', name, type, init, line) ('expr', e, line)
   ('return', e, line) ('if', cond, then[], else[], line) ('loop', kind, cond, body[], line, init[], inc[])
 """
+import gzip
 import hashlib
 import json
 import os
@@ -37,7 +38,7 @@ class TU:
         key = hashlib.sha256((extract.key() + path + repr(defines) + repr(extra_args) + repr(filt)).encode()).hexdigest()[:20]
         cdir = os.path.join(extract.cache_dir(), "cast")
         os.makedirs(cdir, exist_ok=True)
-        cf = os.path.join(cdir, key + ".json")
+        cf = os.path.join(cdir, key + ".json.gz")
         if not os.path.exists(cf):
             cmd = ["clang", "-fsyntax-only", "-Xclang", "-ast-dump=json", "-I", os.path.join(REPO, "c"), "-Wno-everything"]
             if filt:
@@ -49,10 +50,11 @@ class TU:
             r = subprocess.run(cmd, capture_output=True, text=True)
             if r.returncode != 0 or not r.stdout.strip():
                 raise SystemExit("EXTRACTION-FAILED clang AST of %s: %s" % (path, r.stderr[-1500:]))
-            with open(cf + ".tmp", "w") as fh:
+            with gzip.open(cf + ".tmp", "wt", compresslevel=3) as fh:        # the JSON AST of a TU with <intrin.h> is > 100 MB
                 fh.write(r.stdout)
             os.rename(cf + ".tmp", cf)
-        txt = open(cf).read()
+        with gzip.open(cf, "rt") as fh:
+            txt = fh.read()
         if filt:
             # with a filter clang prints "Dumping <name>:" lines followed by one JSON object each
             objs = []
